@@ -96,6 +96,23 @@ def _compress(r, idx):
     return out
 
 
+def _classify_exception(mod, case, e):
+    """An exception that escapes run_case: raised inside the library under test (innermost frame outside /verif)
+    for an input of the declared space -> a violation with a catch-all signature; raised by the harness itself
+    -> harness error (exit 2)."""
+    tb = traceback.extract_tb(e.__traceback__)
+    inner = tb[-1].filename if tb else ""
+    text = traceback.format_exc()
+    in_harness = os.path.abspath(inner).startswith(VERIF + os.sep) if inner else True
+    if in_harness or isinstance(e, (MemoryError, KeyboardInterrupt, SystemExit)):
+        return {"harness_error": text}
+    label = case.get("label", "case") if isinstance(case, dict) else "case"
+    return {"viol": [{"sig": "%s:unexpected-exception-inside-library:%s:%s" % (mod.PROPERTY, type(e).__name__, label),
+                      "what": "an exception raised inside the library escaped the check's own handling for an input of the declared space",
+                      "expected": "a value, or an exception the check anticipates", "observed": text[-1500:]}],
+            "classes": [], "outcome": ("escaped-exception", type(e).__name__)}
+
+
 def _worker(mod, tier, case_list, conn, cur):
     signal.signal(signal.SIGINT, signal.SIG_IGN)
     try:
@@ -120,8 +137,8 @@ def _worker(mod, tier, case_list, conn, cur):
             cur.value = i
             try:
                 r = mod.run_case(case)
-            except BaseException:
-                r = {"harness_error": traceback.format_exc()}
+            except BaseException as e:
+                r = _classify_exception(mod, case, e)
             out.append((i, _compress(r, i)))
         cur.value = -1
         conn.send(("ok", out))
@@ -249,8 +266,15 @@ def _run_single(mod_name, tier, case, q):
         mod = importlib.import_module(mod_name)
         if hasattr(mod, "setup_worker"):
             mod.setup_worker(tier)
-        r = mod.run_case(case) or {}
-        q.put(sorted((v["sig"], json.dumps(jsonable(v.get("observed")), sort_keys=True)) for v in r.get("viol", [])))
+        try:
+            r = mod.run_case(case) or {}
+        except BaseException as e:
+            r = _classify_exception(mod, case, e)
+            if "harness_error" in r:
+                raise
+        import re
+        # object addresses in reprs differ between processes and are not part of the observation
+        q.put(sorted((v["sig"], re.sub(r"0x[0-9a-fA-F]+", "0x..", json.dumps(jsonable(v.get("observed")), sort_keys=True))) for v in r.get("viol", [])))
     except BaseException:
         q.put(("error", traceback.format_exc()))
 
@@ -327,7 +351,12 @@ def main(mod):
             rep = json.load(f)
         if hasattr(mod, "setup_worker"):
             mod.setup_worker(rep.get("tier", "quick"))
-        r = mod.run_case(rep["case"]) or {}
+        try:
+            r = mod.run_case(rep["case"]) or {}
+        except BaseException as e:
+            r = _classify_exception(mod, rep["case"], e)
+            if "harness_error" in r:
+                raise
         sigs = [v for v in r.get("viol", []) if v["sig"] == rep["signature"]]
         print("replay of %s (%s)" % (rep["signature"], args.replay))
         print("  recorded expected:", json.dumps(rep.get("expected")))
